@@ -292,7 +292,7 @@ MANIFEST = {
                    "generated well-formed grammars built from the real templates, each run on all inputs over a small alphabet."),
     "level_note": ("Trusted: Lean kernel + propext/Classical.choice/Quot.sound; model fidelity outside the generated grammars; harness and "
                    "protocol; std::istringstream as a character array. float_ and the typed result plumbing (tuple/variant flattening) "
-                   "are not modelled; termination for well-formed grammars is not proved (all theorems hold for every fuel). "
+                   "are not modelled; termination is proved for every grammar that is well-formed under some ranking of its rules (wf_total: no left recursion, no repetition of a nullable body; recursive grammars included). "
                    "No sorry/axiom/native_decide."),
     "technique": "Lean 4 proof over hand-written executable model (refinement + big-step semantics) + differential correspondence (ASan/UBSan harness, exhaustive inputs per generated grammar)",
     "design_ref": "DESIGN.md §5 C02, Appendix A.1",
